@@ -261,12 +261,12 @@ def run(repo: Repo, rep: Report) -> None:
                 wild = n
 
         def expansion_of(alt: list[ast.expr]):
-            """the loop / comprehension generator that binds the subject, predicate and object of the entry, when they are names bound by one (None: they are not loop variables)"""
-            bs = [_h.binder_of(mod, m, x) if isinstance(x, ast.Name) else None for x in alt[:3]]
-            return bs[0] if bs[0] is not None and all(b is bs[0] for b in bs) else None
+            """the loop / comprehension generator whose row holds the subject, predicate and object of the entry at the positions of a triple, however they are taken out of
+            the row - names of the loop target, `row[i]`, locals unpacked from a part of the row (None: they are not the triple of one loop row)"""
+            return _h.enumerated_triple(mod, m, alt)
 
         def loop_bound(alt: list[ast.expr]) -> bool:
-            return any(isinstance(x, ast.Name) and _h.binder_of(mod, m, x) is not None for x in alt[:3])
+            return any(_h.row_source(mod, m, x) is not None for x in alt[:3])
 
         unguarded_appends = []
         # (b) shape of every append
@@ -338,7 +338,7 @@ def run(repo: Repo, rep: Report) -> None:
                         en = _h.enumeration_calls(loop.iter)
                         # the enumeration is asked for the pattern of this call
                         pat_ok = bool(en) and all(c.args and (_h.denotes_triple(m, c.args[0], comps, params[0]) or all(cmp_ in norm(c.args[0]) for cmp_ in comps)) for c in en)
-                        oke = bool(en) and pat_ok and trip == tg[:3] and len(tg) == 3
+                        oke = bool(en) and pat_ok  # (that the three components sit at the triple positions of the row is what expansion_of established)
                         whye = ("entry components %s are the enumerated quads of %s" % (trip, norm(loop.iter)[:60])) if oke else (
                             "entry %s is not the loop target %s of an enumeration of the removal pattern" % (trip, tg))
                     rep.ob("C18.e-wildcards-expanded", mod, where, ap if len(site.alts) == 1 else "%s for %s" % (norm(ap)[:80], norm(loop.iter if loop is not None else alt[0])[:60]),
@@ -423,16 +423,15 @@ def run(repo: Repo, rep: Report) -> None:
             for tt, vv in pairs:
                 if isinstance(tt, ast.Name) and norm(vv) in ("self." + log, "list(self.%s)" % log, "self.%s[:]" % log, "self.%s.copy()" % log):
                     log_alias.add(tt.id)
-    for n in own_nodes(rb):
-        if isinstance(n, ast.For) and (("self." + log) in norm(n.iter) or norm(n.iter) in log_alias):
-            loop = n
-    if loop is None:
+    # the replay loop, by what it does: the loop of rollback in which one entry of the log per iteration is taken apart into its components - `for <components> in <log>`, or
+    # a loop over the positions of the log (`while i < len(<log>)` with `i` starting at 0 and stepped once, unconditionally, per iteration) whose body unpacks `<log>[i]`
+    replay = _h.replay_loop(mod, rb, log, log_alias)
+    if replay is None:
         raise AnalysisError("rollback loop over the undo log not found")
-    order_ok = norm(loop.iter) == "self." + log or norm(loop.iter) in ("reversed(self.%s)" % log, "self.%s[::-1]" % log, "list(self.%s)" % log) or norm(loop.iter) in log_alias
-    rep.ob("C18.c-rollback-dispatch", mod, CLS + ".rollback", loop.iter, order_ok,
-           "replays every entry of the log" if order_ok else "rollback iterates %s, not the whole log" % norm(loop.iter), node=loop)
-    tg = [norm(e) for e in loop.target.elts] if isinstance(loop.target, ast.Tuple) else []
-    rep.ob("C18.c-rollback-dispatch", mod, CLS + ".rollback", "for %s in ..." % norm(loop.target), len(tg) == 5,
+    loop, tg, loop_body, order_ok, over, tgt_text = replay
+    rep.ob("C18.c-rollback-dispatch", mod, CLS + ".rollback", over, order_ok,
+           "replays every entry of the log" if order_ok else "rollback iterates %s, not the whole log" % (over if isinstance(over, str) else norm(over)), node=loop)
+    rep.ob("C18.c-rollback-dispatch", mod, CLS + ".rollback", "for %s in ..." % tgt_text, len(tg) == 5,
            "5-component unpack matches the logged layout" if len(tg) == 5 else "rollback unpacks %d components, entries have 5" % len(tg), node=loop)
     if len(tg) == 5:
         opvar = tg[4]
@@ -457,36 +456,53 @@ def run(repo: Repo, rep: Report) -> None:
             out.sort(key=lambda cn: (cn[0].lineno, cn[0].col_offset))
             return out
 
-        def dispatch(stmts: list[ast.stmt], tag: str) -> list[tuple[ast.Call, str]]:
+        def dispatch(stmts: list[ast.stmt], tag: str) -> tuple[list[tuple[ast.Call, str]], bool]:
+            """(the mutator calls an iteration executes for an entry with this tag, in order; does the statement list end the iteration - continue / break / return / raise on
+            the path the tag selects).  A test that is not on the tag leaves both arms possible: their calls all count, the iteration ends only if it ends in both."""
             out: list[tuple[ast.Call, str]] = []
             for s in stmts:
                 if isinstance(s, ast.If):
                     out += mutator_calls(s.test, tag)
                     d = _h.decide(s.test, opvar, tag)
                     if d is not None:
-                        out += dispatch(s.body if d else s.orelse, tag)
+                        sub, ends = dispatch(s.body if d else s.orelse, tag)
+                        out += sub
                     else:
-                        # a test that is not on the tag: both arms are possible
-                        out += dispatch(s.body, tag) + dispatch(s.orelse, tag)
+                        s1, e1 = dispatch(s.body, tag)
+                        s2, e2 = dispatch(s.orelse, tag)
+                        out += s1 + s2
+                        ends = e1 and e2
+                    if ends:
+                        return out, True
+                elif isinstance(s, (ast.Continue, ast.Break, ast.Return, ast.Raise)):
+                    out += mutator_calls(s, tag)
+                    return out, True
                 else:
                     out += mutator_calls(s, tag)
-            return out
+            return out, False
+
+        def carries(e: ast.AST | None, want: list[str]) -> tuple[bool, list[str]]:
+            """every value the argument can stand for (a local stands for all its definitions) is the tuple of exactly these entry components"""
+            if e is None:
+                return False, []
+            leaves = _h.leaf_definitions(rb, e)
+            shown = [norm(x) for x in leaves[0].elts] if leaves and isinstance(leaves[0], ast.Tuple) else []
+            return bool(leaves) and all(isinstance(lf, ast.Tuple) and [norm(x) for x in lf.elts] == want for lf in leaves), shown
 
         for op, tags in logged_tags.items():
             for tag in sorted(tags):
-                calls = dispatch(loop.body, tag)
+                calls, _ends = dispatch(loop_body, tag)
                 names_ = [nm for _, nm in calls]
                 ok = names_ == [tag]
                 detail = "tag %r (logged by %s) -> wrapped %s" % (tag, op, names_)
                 if ok:
                     c = calls[0][0]
-                    a0 = [norm(e) for e in c.args[0].elts] if c.args and isinstance(c.args[0], ast.Tuple) else []
-                    ctxarg = norm(c.args[1]) if len(c.args) > 1 else ""
-                    # one local alias assigned unconditionally per entry: g = Graph(self.store, context)
-                    for st in loop.body:
-                        if isinstance(st, ast.Assign) and len(st.targets) == 1 and norm(st.targets[0]) == ctxarg:
-                            ctxarg = norm(st.value)
-                    ok = a0 == tg[:3] and tg[3] in ctxarg
+                    oka, a0 = carries(c.args[0] if c.args else None, tg[:3])
+                    # the graph argument: every definition of it is built from the logged context id
+                    cleaves = _h.leaf_definitions(rb, c.args[1]) if len(c.args) > 1 else []
+                    ctxarg = " / ".join(norm(x) for x in cleaves)
+                    okc = bool(cleaves) and all(any(isinstance(x, ast.Name) and x.id == tg[3] for x in ast.walk(lf)) for lf in cleaves)
+                    ok = oka and okc
                     if not ok:
                         detail += "; but arguments %s / %s do not carry the logged quad %s" % (a0, ctxarg, tg[:4])
                 rep.ob("C18.c-rollback-dispatch", mod, CLS + ".rollback", "dispatch of tag %r" % tag, ok, detail, node=loop)
@@ -611,8 +627,8 @@ def run(repo: Repo, rep: Report) -> None:  # noqa: F811
     if not wild:
         # no single-quad shortcut at all: every removal is logged from an enumeration of the wrapped store (checked by C18.e), there is no branch test to get wrong
         sites = [s_ for s_ in _h.log_sites(mod, f, log, _h.Entries(mod, f, class_of)) if s_.kind == "append"]
-        fed = [x for s_ in sites for alt in s_.alts for x in alt[:3] if isinstance(x, ast.Name)]
-        if not any(b is not None and _h.enumeration_calls(b.iter) for b in (_h.binder_of(mod, f, x) for x in fed)):
+        fed = [_h.row_source(mod, f, x) for s_ in sites for alt in s_.alts for x in alt[:3]]
+        if not any(b is not None and _h.enumeration_calls(b[0].iter) for b in fed):
             raise AnalysisError("AuditableStore.remove: neither a wildcard branch test nor an enumeration of the wrapped store that feeds the undo log found")
         rep.ob("C18.j-guards-and-branch-tests-see-the-context", mod, "AuditableStore.remove", "no single-quad branch", True,
                "every removal, fully specified or not, is logged from what the wrapped store reports for the pattern and the context", node=f)
@@ -729,8 +745,12 @@ def run(repo: Repo, rep: Report) -> None:  # noqa: F811
                 derived: list[ast.expr] = []
                 reported: list[str] = []
                 for lf in leaves:
-                    base_name = next((x for x in ast.walk(lf) if isinstance(x, ast.Name) and x.id == _h.chain_base(lf)), None) if _h.chain_base(lf) is not None else None
-                    lp = _h.binder_of(mod, f, base_name) if base_name is not None else None
+                    # the object whose attribute chain the leaf reads (`ctx` of ctx.identifier, `quad[3]` of quad[3].identifier): a part of the row of an enumeration?
+                    base_e = lf
+                    while isinstance(base_e, ast.Attribute):
+                        base_e = base_e.value
+                    src_ = _h.row_source(mod, f, base_e)
+                    lp = src_[0] if src_ is not None else None
                     if lp is not None and any(_self_attr(x, wrapped) for x in ast.walk(lp.iter)):
                         reported.append(norm(lp.iter)[:60])
                     else:
@@ -918,6 +938,11 @@ def run(repo: Repo, rep: Report) -> None:  # noqa: F811
                 w = _wrapped_call(x, wrapped)
                 if w is not None and store_method_hands_out_graphs(w) and x is e:
                     return True
+                # what a graph-yielding method of the wrapped store gives, fed straight into the re-binding (map(self.<rebinder>, wrapped.contexts(..)), <rebinder>(wrapped.m(..))):
+                # the same hand-out as the loop over it that re-binds one by one
+                if isinstance(x, ast.Call) and is_rebind(x) and any(
+                        (_wrapped_call(a, wrapped) or "") and store_method_hands_out_graphs(_wrapped_call(a, wrapped)) for a in list(x.args) + [k.value for k in x.keywords]):
+                    return True
             return False
 
         for n in own_nodes(f, include_nested=True):
@@ -1044,7 +1069,14 @@ def run(repo: Repo, rep: Report) -> None:  # noqa: F811
             # one obligation per row the entry can stand for (a loop over rows built by comprehensions: the row expressions of each comprehension)
             for alt in site.alts:
                 bad = []
+                def enumerates_wrapped(lp) -> bool:
+                    return any(_h.self_attr(y, wrapped) or (isinstance(y, ast.Call) and _h.self_attr(y.func) and y.func.attr in ("triples", "quads")) for y in ast.walk(lp.iter))
+
                 for pos in alt[:3]:
+                    # a part of the row of a loop that enumerates the wrapped store, however it is taken out of the row (loop target name, row[i], local unpacked from row[i])
+                    src_ = _h.row_source(mod, f, pos)
+                    if src_ is not None and enumerates_wrapped(src_[0]):
+                        continue
                     names_ = [x for x in ast.walk(pos) if isinstance(x, ast.Name)]
                     if not names_:
                         bad.append("%s is not a value the wrapped store reported" % norm(pos))
